@@ -656,6 +656,31 @@ class NumberOrderedForm(Operator):
             # Convert base to NumberOrderedForm
             base_nof = NumberOrderedForm.from_expr(base, operators=operators)
 
+            if exp.has(*operator_types, NumberOperator):
+                # The exponent is an operator expression like in 2**N. Like the
+                # arguments of functions, base and exponent may only contain number
+                # operators.
+                exp_nof = NumberOrderedForm.from_expr(exp, operators=operators)
+                if not (
+                    base_nof.is_particle_conserving()
+                    and exp_nof.is_particle_conserving()
+                ):
+                    raise ValueError(
+                        "Cannot exponentiate expressions with unmatched creation or "
+                        f"annihilation operators: {expr}"
+                    )
+                return cls(
+                    operators,
+                    Tuple(
+                        Tuple(
+                            (Zero,) * len(operators),
+                            next(iter(base_nof.terms.values()), Zero)
+                            ** next(iter(exp_nof.terms.values()), Zero),
+                        )
+                    ),
+                    validate=False,
+                )
+
             # Use the __pow__ method to handle the exponentiation
             return base_nof**exp
 
